@@ -32,9 +32,12 @@ def correspond(ctx):
     rows = generated_rows()
     if len(rows) != len(curves):
         ctx.problem("translator", "Generated/Curves.lean has %d rows, ecdsa.curves has %d curves" % (len(rows), len(curves)))
+    seen = set()
     for cv in curves:
         ctx.cov["evaluations"] += 1
-        ctx.cov["distinct_nontrivial"] += 1
+        if cv.name not in seen:              # a case is distinct by its curve name (17 curves, one comparison each)
+            seen.add(cv.name)
+            ctx.cov["distinct_nontrivial"] += 1
         c = cv.curve
         live = (c.p(), c.a() if c.a() < c.p() // 2 else c.a(), c.b(), cv.generator.x(), cv.generator.y(), cv.order, c.cofactor())
         row = rows.get(cv.name)
@@ -44,7 +47,8 @@ def correspond(ctx):
             ctx.problem("translator", "generated row of %s differs from the live curve object" % cv.name, "%r vs %r" % (row, live))
 
 
-def check_curve(cv, rng):
+def check_curve(cv, ks):
+    """ks: the random multipliers (drawn from ctx.rng by the caller, recorded in the replay file)"""
     from ecdsa.ellipticcurve import INFINITY
     G, n = cv.generator, cv.order
     bad = []
@@ -54,8 +58,7 @@ def check_curve(cv, rng):
         bad.append("(n+1)*G != G")
     if not ((n - 1) * G + G == INFINITY):
         bad.append("(n-1)*G + G != INFINITY")
-    for _ in range(2):
-        k = rng.getrandbits(n.bit_length() + 8)
+    for k in ks:
         if not (k * G == (k % n) * G):
             bad.append("k*G != (k mod n)*G for k=%d" % k)
     return bad
@@ -66,17 +69,17 @@ def search(ctx):
     n_eval = 0
     for cv in curves:
         n_eval += 1
-        bad = check_curve(cv, ctx.rng)
+        ks = [ctx.rng.getrandbits(cv.order.bit_length() + 8) for _ in range(2)]
+        bad = check_curve(cv, ks)
         ctx.hist("search", cv.name)
         if bad:
-            ctx.violation({"input": {"curve": cv.name}, "observed": bad, "expected": "n*G = INFINITY, multiples depend on k mod n"})
+            ctx.violation({"input": {"curve": cv.name, "ks": ks}, "observed": bad, "expected": "n*G = INFINITY, multiples depend on k mod n"})
     ctx.cov["search_evaluations"] = n_eval
 
 
 def replay(rec):
-    import random
     from ecdsa.curves import curves
     for cv in curves:
         if cv.name == rec["input"]["curve"]:
-            return bool(check_curve(cv, random.Random(1)))
+            return bool(check_curve(cv, [int(k) for k in rec["input"].get("ks", [])]))
     return True
